@@ -165,7 +165,9 @@ func oracleC04() *Result {
 		k = 3
 	}
 	var tasks []Task
-	add := func(b []byte, tag string) { tasks = append(tasks, Task{Oracle: "C04", Cfg: versions, Src: b, Tag: tag}) }
+	add := func(b []byte, tag string) {
+		tasks = append(tasks, Task{Oracle: "C04", Cfg: versions, Src: b, Tag: tag})
+	}
 	for _, c := range regressionInputs("C04") {
 		add(c, "regression")
 	}
